@@ -170,6 +170,13 @@ func (m DocComposite) deleteWithPrefix(ctx context.Context, key keys.DataStoreKe
 		return err
 	}
 
+	// The entries are collected first and written once the iterator is closed, some stores
+	// (the in-memory one) do not allow writes while an iterator is open.
+	type entry struct {
+		key   keys.DataStoreKey
+		value []byte
+	}
+	entries := []entry{}
 	for {
 		hasNext, err := iter.Next()
 		if err != nil {
@@ -184,23 +191,35 @@ func (m DocComposite) deleteWithPrefix(ctx context.Context, key keys.DataStoreKe
 			return errors.Join(err, iter.Close())
 		}
 
+		var value []byte
 		if dsKey.InstanceType == keys.ValueKey {
-			value, err := iter.Value()
+			value, err = iter.Value()
 			if err != nil {
 				return errors.Join(err, iter.Close())
 			}
+			value = append([]byte{}, value...)
+		}
+		entries = append(entries, entry{key: dsKey, value: value})
+	}
 
-			err = m.store.Set(ctx, dsKey.WithDeletedFlag().Bytes(), value)
+	err = iter.Close()
+	if err != nil {
+		return err
+	}
+
+	for _, e := range entries {
+		if e.key.InstanceType == keys.ValueKey {
+			err = m.store.Set(ctx, e.key.WithDeletedFlag().Bytes(), e.value)
 			if err != nil {
-				return errors.Join(err, iter.Close())
+				return err
 			}
 		}
 
-		err = m.store.Delete(ctx, dsKey.Bytes())
+		err = m.store.Delete(ctx, e.key.Bytes())
 		if err != nil {
-			return errors.Join(err, iter.Close())
+			return err
 		}
 	}
 
-	return iter.Close()
+	return nil
 }
